@@ -6,6 +6,7 @@ import (
 	"fmt"
 	"net"
 	"strconv"
+	"strings"
 	"time"
 
 	"pgregory.net/rapid"
@@ -96,6 +97,13 @@ func gen(t *rapid.T) Case {
 	}
 
 	n := rapid.IntRange(1, 12).Draw(t, "nToks")
+	if rapid.IntRange(0, 7).Draw(t, "manyToks") == 0 {
+		// long openings: dozens of option requests
+		n = rapid.IntRange(17, 64).Draw(t, "nToksMany")
+	}
+
+	big := false
+
 	for i := 0; i < n; i++ {
 		switch rapid.IntRange(0, 9).Draw(t, "tokKind") {
 		case 0, 1, 2, 3:
@@ -116,7 +124,15 @@ func gen(t *rapid.T) Case {
 			if rapid.Bool().Draw(t, "banner") {
 				d = []byte(rapid.SampledFrom(banners).Draw(t, "bannerText"))
 			} else {
-				d = rapid.SliceOfN(rapid.ByteRange(1, 0xef), 1, 12).Draw(t, "bytes")
+				// any byte but IAC itself is data (NUL as in CR NUL, the codes of telnet commands
+				// when no IAC precedes them)
+				d = rapid.SliceOfN(rapid.ByteRange(0, 0xfe), 1, 12).Draw(t, "bytes")
+			}
+
+			if !big && rapid.IntRange(0, 24).Draw(t, "bigData") == 0 {
+				// a banner of a few kilobytes
+				big = true
+				d = append(d, []byte(strings.Repeat("0123456789 banner line\r\n", rapid.IntRange(50, 160).Draw(t, "bigN")))...)
 			}
 
 			if len(c.Toks) > 0 && c.Toks[len(c.Toks)-1].K == "data" {
@@ -131,6 +147,11 @@ func gen(t *rapid.T) Case {
 	for i := 0; i < ns; i++ {
 		c.Splits = append(c.Splits, rapid.SampledFrom([]int{0, 1, 1, 2, 3, 5, 17}).Draw(t, "split"))
 		c.GapsUS = append(c.GapsUS, rapid.SampledFrom([]int64{0, 0, 200, 1500, 4000}).Draw(t, "gapUS"))
+	}
+
+	if big {
+		// kilobytes in a handful of segments, without think time
+		c.Splits, c.GapsUS = []int{0, 1400, 700}, []int64{0, 0, 0}
 	}
 
 	c.Q = strconv.Quote(string(c.wire()))
